@@ -77,6 +77,12 @@ func Run(cfg hx.Config) (*hx.Meta, error) {
 		}
 	}
 
+	// 1b. where goderive is started and how the packages are named (own random stream: the generated packages
+	// below stay what they were)
+	if err := rn.runInvocations(hx.NewRand(cfg.Seed + 0x5C10)); err != nil {
+		return nil, err
+	}
+
 	// 2. hand-written packages with a plan (several passes over one file, generated-code headers, unparsable
 	// files with a renaming in the first / a later pass)
 	for i, sc := range fixedPlanned() {
@@ -207,7 +213,8 @@ func (rn *runner) runPlanned(sc *scenario, i int, always bool) error {
 			meta.Count("scenario/whole-tree")
 		}
 	}
-	return nil
+	// the same package named from another working directory, alone or next to directories without sources
+	return rn.runElsewhere(sc, i)
 }
 
 // importsStdlib: goderive type-checks imported packages from source (about a second per run)
